@@ -7,6 +7,7 @@ import (
 	"flag"
 	"fmt"
 	"os"
+	"runtime"
 	"runtime/debug"
 	"sort"
 	"strings"
@@ -52,22 +53,53 @@ func main() {
 		}
 	}
 	sort.Strings(ids)
-	start := time.Now()
-	w, err := loadWorld(*target, "")
-	if err != nil {
-		fmt.Printf("CHECKER-ERROR cannot load %s: %v\n", *target, err)
-		os.Exit(2)
+	// quick: the default build configuration (linux/amd64). thorough: additionally 32-bit (386: int, uint and
+	// uintptr are 32 bits wide, other struct offsets) and arm64 (other compiler back end for the prove pass, other
+	// build-tagged files of the dependencies); every rule is re-decided on each program and the verdicts are merged
+	// per obligation key (a construct that fails on any architecture fails).
+	archs := []string{""}
+	if *tier == "thorough" {
+		archs = []string{"", "386", "arm64"}
+		thoroughBounds = true
 	}
-	fmt.Printf("loaded %s: %d packages, %d source functions of the package (incl. closures/instances) in %.1fs\n",
-		*target, w.NPkgs, w.NFuncs, time.Since(start).Seconds())
-	if w.NPkgs == 0 || w.NFuncs < 100 {
-		fmt.Printf("CHECKER-ERROR implausibly small program (%d packages, %d functions)\n", w.NPkgs, w.NFuncs)
-		os.Exit(2)
+	checks := map[string]*Check{}
+	codes := map[string]int{}
+	starts := map[string]time.Time{}
+	for _, id := range ids {
+		checks[id] = newCheck(id)
+		starts[id] = time.Now()
+	}
+	for _, arch := range archs {
+		start := time.Now()
+		w, err := loadWorld(*target, arch)
+		if err != nil {
+			fmt.Printf("CHECKER-ERROR cannot load %s (GOARCH=%q): %v\n", *target, arch, err)
+			os.Exit(2)
+		}
+		fmt.Printf("loaded %s GOARCH=%s: %d packages, %d source functions of the package (incl. closures/instances) in %.1fs\n",
+			*target, w.ArchName(), w.NPkgs, w.NFuncs, time.Since(start).Seconds())
+		if w.NPkgs == 0 || w.NFuncs < 100 {
+			fmt.Printf("CHECKER-ERROR implausibly small program (%d packages, %d functions)\n", w.NPkgs, w.NFuncs)
+			os.Exit(2)
+		}
+		for _, id := range ids {
+			c := checks[id]
+			c.beginArch(w.ArchName())
+			if code := analyseOne(w, c, *tier); code > codes[id] {
+				codes[id] = code
+			}
+		}
+		w = nil
+		runtime.GC()
 	}
 	exit := 0
 	for _, id := range ids {
-		code := runOne(w, id, *tier, *target, *verif, *noEvid, start)
-		start = time.Now()
+		code := codes[id]
+		if code == 0 {
+			o := runOpts{verifDir: *verif, tier: *tier, target: *target, noEvid: *noEvid, start: starts[id],
+				cmd: fmt.Sprintf("./run.sh %s %s", id, *tier)}
+			code = checks[id].finish(o)
+		}
 		if code > exit {
 			exit = code
 		}
@@ -75,19 +107,19 @@ func main() {
 	os.Exit(exit)
 }
 
-func runOne(w *World, id, tier, target, verif string, noEvid bool, start time.Time) (code int) {
-	c := newCheck(id)
-	o := runOpts{verifDir: verif, tier: tier, target: target, noEvid: noEvid, start: start,
-		cmd: fmt.Sprintf("./run.sh %s %s", id, tier)}
+func analyseOne(w *World, c *Check, tier string) (code int) {
 	defer func() {
 		if r := recover(); r != nil {
-			fmt.Printf("CHECKER-ERROR property=%s panic: %v\n%s\n", id, r, debug.Stack())
+			fmt.Printf("CHECKER-ERROR property=%s GOARCH=%s panic: %v\n%s\n", c.ID, w.ArchName(), r, debug.Stack())
 			code = 2
 		}
 	}()
-	registry[id](w, c, tier)
-	return c.finish(o)
+	registry[c.ID](w, c, tier)
+	return 0
 }
+
+// thoroughBounds raises the abstract interpreter's depth and step bounds (thorough tier).
+var thoroughBounds bool
 
 func flagSet(name string) bool {
 	set := false
